@@ -605,9 +605,31 @@ def terms_to_graph(terms):
     return {"types": types, "tuples": tuples}, roots
 
 
+def fixed_triples():
+    """hand-written triples of shapes the sampler rarely draws: unions of FUNCTION types below a recursive type
+    (seeded change C09-2: a function-vs-function comparison that failed on the parameter left the rejected type
+    on the stack that `^` is resolved against, so a later back-reference in the same call pointed at it)"""
+    fi, fb = ("fn", INT, INT), ("fn", BIN, BIN)
+    nil_ = T_tup("Nil")
+    hs = T_uni(nil_, T_tup("Cons", ("", T_uni(fi, fb)), ("", ("cyc", 1))))
+    hsb = T_uni(nil_, T_tup("Cons", ("", fb), ("", ("cyc", 1))))
+    c1 = T_tup("Cons", ("", fb), ("", nil_))
+    c2 = T_tup("Cons", ("", fb), ("", T_tup("Cons", ("", fi), ("", nil_))))
+    bad = T_tup("Cons", ("", fb), ("", fi))
+    ps = T_uni(nil_, T_tup("Cons", ("", T_uni(("proc", INT, INT), ("proc", BIN, BIN))), ("", ("cyc", 1))))
+    p1 = T_tup("Cons", ("", ("proc", BIN, BIN)), ("", nil_))
+    tree = T_uni(T_tup("A", ("", T_uni(fi, fb))), T_tup("B", ("", ("cyc", 1)), ("", ("cyc", 1))))
+    t1 = T_tup("B", ("", T_tup("A", ("", fb))), ("", T_tup("A", ("", fi))))
+    return [(c1, hsb, hs), (c2, hs, hsb), (bad, hs, c1), (c1, hs, c2), (p1, ps, hs), (t1, tree, hs),
+            (T_uni(fi, fb), fb, fi), (T_tup("A", ("x", T_uni(fi, fb))), T_tup("A", ("x", fb)), T_tup("A", ("x", fi)))]
+
+
 def sample_triples(n, seed):
     rng = random.Random(seed * 7919 + 17)
     out = []
+    for terms in fixed_triples():
+        if all(well_formed(t) for t in terms):
+            out.append(terms_to_graph(list(terms)))
     while len(out) < n:
         a = families(rng) if rng.random() < 0.45 else gen_term(rng, rng.choice([2, 3]), 0, False)
         if rng.random() < 0.3 and well_formed(a):
@@ -1074,6 +1096,37 @@ def c08_vcases(check, tier):
     return vcs
 
 
+def resource_vcases(first_id):
+    """records for TypesValTrace: (pattern type \\File or \\Dir, value = a file handle), configurations = one program /
+    sessions in which the handle is opened before or after the other resource name is first mentioned"""
+    OPEN = "[0x2f78, 0, 0] __file_open__"
+    g = {"types": [{"k": "uni", "ms": []}, {"k": "res", "r": "File"}, {"k": "res", "r": "Dir"}], "tuples": []}
+    reqs, plan = [], []
+    for ti, T in ((2, "File"), (3, "Dir")):
+        for form, pat in (("type", "='t"), ("as", "=('t)x")):
+            test = "f = #(\\File | 't | Zq) { | %s => Ok | No }\n&h f" % pat
+            alias = "'t = \\%s" % T
+            cfgs = {"direct": [alias + "\nh = " + OPEN + "\n" + test],
+                    "session": ["h = " + OPEN, alias + "\n" + test],
+                    "session_other_name_later": ["h = " + OPEN, "zz = #\\Dir { 1 }", alias + "\n" + test],
+                    "session_other_names_around": ["zz = #\\Dir { 1 }", "h = " + OPEN, "yy = #\\Socket { 1 }", alias + "\n" + test]}
+            for cfg, lines in cfgs.items():
+                rid = "r_%s_%s_%s" % (T, form, cfg)
+                reqs.append({"id": rid, "lines": lines, "io": True})
+                plan.append((ti, form, cfg, rid, lines))
+    outs = common.qrun(reqs, timeout=600)
+    recs = {}
+    for ti, form, cfg, rid, lines in plan:
+        o = outs.get(rid, {})
+        last = o["outcomes"][-1] if o.get("outcomes") and not o.get("crashes") else {"t": "crash"}
+        r = recs.setdefault(ti, {"id": first_id + len(recs), "g": g, "t": ti, "v": {"k": "res", "r": "File"}, "runs": [],
+                                 "progs": {}})
+        r["runs"].append({"cfg": cfg, "form": form, "acc": verdict_of(last)})
+        r["progs"].setdefault(form, " ; ".join(lines[-1:]))
+        r.setdefault("sessions", {})["%s/%s" % (cfg, form)] = lines
+    return list(recs.values())
+
+
 def run_c08(prop, tier):
     check = common.Check(prop, tier)
     check.cov["rule"] = RULE_C08
@@ -1180,6 +1233,14 @@ def run_c08(prop, tier):
             ci, form, direct, _ = progs[pi]
             check.sample({"program": direct, "runs": [x for x in recs[ci]["runs"] if x["form"] == form],
                           "spec": {k: vcs[ci][k] for k in ("must", "may", "sc")}})
+    # resource handles: a handle's runtime type id is its name's position in a per-environment list that grows as
+    # lines mention new resource types; a handle opened early must keep passing / failing the same tests after a
+    # later line introduced another resource name (seeded change C08-2: the list was sorted, so ids shifted)
+    rrecs = resource_vcases(len(recs) + 1)
+    for r in rrecs:
+        recs["res%d" % r["id"]] = r
+        runs += len(r["runs"])
+    check.cov["resource_handle_cases"] = len(rrecs)
     # judge
     path = os.path.join(WORKD, "c08_trace_%d.ndjson" % os.getpid())
     with open(path, "w") as f:
